@@ -757,7 +757,8 @@ func (c *FnCtx) cardOf(setSort *Sort, s string) string {
 		d.addAxiom(fn+".add", fmt.Sprintf("(forall ((s %s) (k %s)) (! (= (%s (store s k true)) (+ (%s s) (ite (select s k) 0 1))) :pattern ((%s (store s k true)))))", ss, k, fn, fn, fn))
 		d.addAxiom(fn+".del", fmt.Sprintf("(forall ((s %s) (k %s)) (! (= (%s (store s k false)) (- (%s s) (ite (select s k) 1 0))) :pattern ((%s (store s k false)))))", ss, k, fn, fn, fn))
 		d.addAxiom(fn+".mem", fmt.Sprintf("(forall ((s %s) (k %s)) (! (=> (select s k) (> (%s s) 0)) :pattern ((select s k) (%s s))))", ss, k, fn, fn))
-		c.e.trusted["axioms of set cardinality ("+fn+"): nonneg, empty, add, del, member=>positive"] = true
+		d.addAxiom(fn+".pos", fmt.Sprintf("(forall ((s %s)) (! (=> (> (%s s) 0) (exists ((k %s)) (select s k))) :pattern ((%s s))))", ss, fn, k, fn))
+		c.e.trusted["axioms of set cardinality ("+fn+"): nonneg, empty, add, del, member=>positive, positive=>member"] = true
 	}
 	return sApp(fn, s)
 }
